@@ -898,6 +898,59 @@ def build_work(tier):
     return work, per_class
 
 
+
+# ----------------------------------------------------------------------------- bit strings filled bit by bit
+
+def bit_assignment_shard(item, deadline):
+    """A bit string built by item assignment (`flags[i] = reg & 0x02`, `flags['fault'] = count`): whatever truthy thing is
+    assigned the bit is set, whatever falsy thing the bit is clear; the object must hold bits, and its octets must be the
+    canonical encoding of exactly those bits (or the assignment / the encoder refuses)."""
+    import bacpypes.primitivedata as PD
+    import bacpypes.basetypes as BT
+    acc = Acc()
+    classes = [PD.BitString] + sorted([k for k in vars(BT).values()
+                                       if isinstance(k, type) and issubclass(k, PD.BitString) and k is not PD.BitString and getattr(k, "bitLen", 0)],
+                                      key=lambda k: k.__name__)
+    values = (1, 2, 16, 128, 255, 256, True, 0, False)
+    for K in classes:
+        L = 10 if K is PD.BitString else K.bitLen
+        names = dict((v, k) for k, v in getattr(K, "bitNames", {}).items())
+        for base in (0, 1):
+            for pos in range(L):
+                for v in values:
+                    for by_name in ((False, True) if pos in names else (False,)):
+                        acc.case(("bit-assign", K.__name__, base, pos, repr(v), by_name))
+                        want = [base] * L
+                        want[pos] = 1 if v else 0
+                        case = {"kind": "bit-assign", "class": K.__name__, "base": base, "pos": pos, "value": repr(v), "by_name": by_name}
+                        try:
+                            obj = K([base] * L)
+                            if by_name:
+                                obj[names[pos]] = v
+                            else:
+                                obj[pos] = v
+                        except Exception as err:
+                            acc.outcome("bit-assign:refused-by-assignment")
+                            continue
+                        try:
+                            t = Tag()
+                            obj.encode(t)
+                            pd = PDUData()
+                            t.encode(pd)
+                            octets = bytes(pd.pduData)
+                        except Exception as err:
+                            acc.outcome("bit-assign:refused-by-encoder")
+                            continue
+                        ref = R.encode_value(R.BITS, tuple(want))
+                        if octets != ref:
+                            acc.fail("bitstring:item-assignment-emits-octets-of-other-bits",
+                                     {"class": K.__name__, "all_bits_were": base, "assigned": "[%d] = %r" % (pos, v), "object_holds": repr(list(obj.value))[:80],
+                                      "emitted": octets.hex(), "canonical_for_the_bits_meant": ref.hex()}, case)
+                        else:
+                            acc.outcome("bit-assign:canonical")
+    return acc
+
+
 def run(tier, seed, deadline):
     global _WORK, _SEED
     acc = Acc()
@@ -924,6 +977,7 @@ def run(tier, seed, deadline):
     items.append(("inbound", 0, 10 ** 6))
     items.append(("anyatomic", 0, 0))
     run_shards(shard, items, deadline, into=acc, ordered=True)
+    run_shards(bit_assignment_shard, [0], deadline, into=acc)
     if acc.info.get("harness_error"):
         raise HarnessError("C01 harness crashed in %d shard(s); first: %s" % (len(acc.info["harness_error"]), acc.info["harness_error"][0]))
     acc.info["classes"] = len(per_class)
@@ -987,6 +1041,13 @@ def describe(Kname, spec, ctx):
 def replay(case):
     global _SEED
     part = case.get("part", "value")
+    if case.get("kind") == "bit-assign":
+        a = bit_assignment_shard(0, time.time() + 120)
+        mine = [c for ent in a.fails.values() for c in ent["cases"]
+                if c["case"].get("class") == case["class"]]
+        bad = any(ent["count"] for ent in a.fails.values())
+        return not bad, "bit strings filled by item assignment (whole sweep re-run): %d failing signatures; e.g. %r" % (
+            len(a.fails), (mine or [None])[0])
     if part == "inbound":
         res = check_inbound(case["charset"], case["text"], case["ctx"])
         return res.sig is None, "inbound charset %r text %r ctx %r -> %s %r" % (
